@@ -23,6 +23,12 @@ def run(ctx):
         for d, L in full:
             d = dict(d); d["umask"] = um
             cs.append((d, L))
+    # temp-file objects whose own mode is unusual (execute bits, group-readable): what is published is 0444
+    for w in (("plain", 100), ("sharded", 4, 100)):
+        for opn in ("set_temp", "put_temp"):
+            for md in ("700", "755", "640"):
+                L = G.header(w, (), "none", umask=0o022) + [G.NOFIRE, "snap", G.op(0, opn, M.KEY, "V", 1, md), "snap"]
+                cs.append(({"w": w, "rs": (), "contents": ("-",), "ck": "none", "op": (opn, "V"), "abs": "temp file of mode %s %s %s" % (md, opn, w[0]), "which": 0, "umask": 0o022}, L))
     res = S.run_many(cs, what=("result", "trace"))
     nontriv, samples, agree = 0, [], 0
     for desc, lines, impl, model, diffs in res:
